@@ -153,7 +153,7 @@ func (t *ArrayType) Accept(v px.Visitor, g px.Guard) {
 
 func (t *ArrayType) Equals(o interface{}, g px.Guard) bool {
 	if ot, ok := o.(*ArrayType); ok {
-		return t.typ.Equals(ot.typ, g)
+		return t.size.Equals(ot.size, g) && t.typ.Equals(ot.typ, g)
 	}
 	return false
 }
